@@ -137,15 +137,22 @@ structure SendOut where
   fin : Nat
   conn : Conn
   log : List Xch
+  /-- connection state if the request is dropped before its first reply (the lookup returned on
+  another server's reply): the script step is consumed, the connection exists (`Init`) -/
+  cancelConn : Conn
   deriving Repr, Inhabited
 
 /-- one pass of the loop of `send_inner`, no reconnect -/
+def inFlight (c : Conn) : Proto → Conn
+  | .udp => { c with posU := c.posU + 1, liveU := true }
+  | .tcp => { c with posT := c.posT + 1, liveT := true }
+
 def nsSendOnce (s : Server) (c : Conn) (disableUdp : Bool) (t : Nat) : SendOut :=
   match choose s c disableUdp with
-  | .none => ⟨none, .udp, t, c, []⟩
+  | .none => ⟨none, .udp, t, c, [], c⟩
   | .fresh p | .reused p =>
     let r := exchange s c p t
-    ⟨some r.1, p, r.2.1, r.2.2, [⟨p, t⟩]⟩
+    ⟨some r.1, p, r.2.1, r.2.2, [⟨p, t⟩], inFlight c p⟩
 
 /-- `send_inner`: `reconnect_budget = 1`, spent when a REUSED connection fails closed -/
 def nsSend (s : Server) (c : Conn) (disableUdp : Bool) (t : Nat) : SendOut :=
@@ -154,8 +161,8 @@ def nsSend (s : Server) (c : Conn) (disableUdp : Bool) (t : Nat) : SendOut :=
     let r := exchange s c p t
     if r.1 = .rst then
       let o := nsSendOnce s r.2.2 disableUdp r.2.1
-      { o with log := ⟨p, t⟩ :: o.log }
-    else ⟨some r.1, p, r.2.1, r.2.2, [⟨p, t⟩]⟩
+      { o with log := ⟨p, t⟩ :: o.log, cancelConn := inFlight c p }
+    else ⟨some r.1, p, r.2.1, r.2.2, [⟨p, t⟩], inFlight c p⟩
   | _ => nsSendOnce s c disableUdp t
 
 /-! ## `try_send` -/
@@ -216,6 +223,8 @@ structure Event where
   reply : Option Reply
   proto : Proto
   fin : Nat
+  /-- the server's connection state if this request is dropped un-answered -/
+  cancelConn : Conn := {}
   deriving Repr, Inhabited
 
 /-- all requests of a batch are created at the batch start with the same policy value -/
@@ -225,7 +234,7 @@ def sendBatch (cfg : Cfg) (disableUdp : Bool) (t : Nat) :
   | i :: is, conns =>
     let o := nsSend (server cfg i) (conns.getD i {}) disableUdp t
     let r := sendBatch cfg disableUdp t is (conns.set i o.conn)
-    (⟨i, o.reply, o.proto, o.fin⟩ :: r.1, r.2.1, o.log.map (fun x => (i, x)) ++ r.2.2)
+    (⟨i, o.reply, o.proto, o.fin, o.cancelConn⟩ :: r.1, r.2.1, o.log.map (fun x => (i, x)) ++ r.2.2)
 
 /-- `FuturesUnordered` yields in completion order (stable: batch order on ties) -/
 def insertEv (e : Event) : List Event → List Event
@@ -262,6 +271,19 @@ def processEvents (cfg : Cfg) : PState → List Event → PState × Option Res
     | (st', some r) => (st', some r)
     | (st', none) => processEvents cfg st' evs
 
+/-- the replies `processEvents` never gets to see because an earlier one ended the lookup -/
+def unprocessed (cfg : Cfg) : PState → List Event → List Event
+  | _, [] => []
+  | st, ev :: evs =>
+    match processEvent cfg { st with clock := ev.fin } ev with
+    | (_, some _) => evs
+    | (st', none) => unprocessed cfg st' evs
+
+/-- returning from `try_send` drops the requests still in flight: their futures are cancelled, the
+connections they opened stay in the server's table -/
+def cancelInFlight (st : PState) (evs : List Event) : PState :=
+  { st with conns := evs.foldl (fun cs ev => cs.set ev.srv ev.cancelConn) st.conns }
+
 inductive RoundOut
   | done (r : Res) (st : PState)
   | next (st : PState)
@@ -291,7 +313,7 @@ def round (cfg : Cfg) (deadline : Nat) (st : PState) : RoundOut :=
       let s := sendBatch cfg st.disableUdp st.clock b.1 st.conns
       let st1 := { st with queue := b.2, conns := s.2.1, log := st.log ++ s.2.2 }
       match processEvents cfg st1 (sortEvents s.1) with
-      | (st2, some r) => .done r st2
+      | (st2, some r) => .done r (cancelInFlight st2 (unprocessed cfg st1 (sortEvents s.1)))
       | (st2, none) => .next st2
 
 /-- the loop, with an explicit bound on the number of rounds (`none` = bound exhausted; `terminates`
@@ -345,8 +367,7 @@ def trySend (cfg : Cfg) (rrNext t0 : Nat) (conns : List Conn) (fuel : Nat) : Opt
 a failed request through the pool: never after `NoConnections` or a negative response, without
 counting after `Busy`, otherwise while attempts remain.  Every (re)send is a new `try_send`: the
 round-robin counter advances and the servers keep their connections and script positions.
-(Exact only when batches hold one server: requests still in flight when a lookup returns are not
-modelled.) -/
+(Requests still in flight when a lookup returns are dropped: `cancelInFlight`.) -/
 
 structure Pool where
   conns : List Conn
